@@ -22,7 +22,7 @@ def jobs_for(tier):
         tpls = corpus.select(feats={'basic', 'ext', 'manyadd'}, exclude={'real', 'spill'}) + \
             corpus.select(ids={'combo-oer-enum', 'combo-uper6', 'combo-choice-seq', 'seq-opt'})
     else:
-        tpls = [t for t in corpus.TEMPLATES if 'spill' not in t['feats']] + corpus.generated()
+        tpls = [t for t in corpus.TEMPLATES if 'spill' not in t['feats']] + corpus.generated(exclude={'real'})
     seen = set()
     for t in tpls:
         if t['id'] in seen:
